@@ -116,6 +116,8 @@ fn subset<T: Clone>(rng: &mut Rng, all: &[T], lo: usize, hi: usize) -> Vec<T> {
 }
 
 pub struct World {
+    /// three words; every corpus holds one document per subset of them (title only)
+    focus: Vec<String>,
     words: Vec<String>,
     tags: Vec<String>,
     us: Vec<u64>,
@@ -157,8 +159,10 @@ fn ascii_words_only(ws: &[String]) -> Vec<String> {
 
 impl World {
     pub fn new(rng: &mut Rng) -> World {
+        let words: Vec<String> = subset(rng, WORDS, 5, 12).into_iter().map(String::from).collect();
         World {
-            words: subset(rng, WORDS, 5, 12).into_iter().map(String::from).collect(),
+            focus: words.iter().take(3).cloned().collect(),
+            words,
             tags: subset(rng, TAGS, 3, 8).into_iter().map(String::from).collect(),
             us: subset(rng, US, 3, 7),
             is: subset(rng, IS, 3, 7),
@@ -188,6 +192,18 @@ impl World {
             return vec!["apple".to_string()];
         }
         (0..rng.urange(lo, hi)).map(|_| rng.pick(&pool).clone()).collect()
+    }
+
+    /// one document per subset of the focus words: whatever boolean combination of them a query
+    /// makes, the documents that tell two readings apart exist
+    pub fn subset_docs(&self, first_id: u64) -> Vec<MDoc> {
+        let n = self.focus.len();
+        (0..(1u64 << n))
+            .map(|mask| {
+                let t: Vec<String> = (0..n).filter(|k| mask >> k & 1 == 1).map(|k| self.focus[k].clone()).collect();
+                MDoc { id: first_id + mask, title: if t.is_empty() { None } else { Some(t) }, ..Default::default() }
+            })
+            .collect()
     }
 
     pub fn gen_doc(&self, id: u64, rng: &mut Rng) -> MDoc {
@@ -423,8 +439,11 @@ pub enum Node {
     Leaf(Leaf),
     /// `+a -b c`
     Occur(Vec<(Occ, Node)>),
-    /// `a AND b OR c AND d`: disjunction of conjunctions
-    OrOfAnds(Vec<Vec<Node>>),
+    /// `a AND -b OR c AND d`: disjunction of conjunctions; an operand may carry `-` (excluded from
+    /// its conjunction) or `+` (no effect inside a conjunction of two or more)
+    OrOfAnds(Vec<Vec<(Occ, Node)>>),
+    /// `field:( expr )`: the leaves of `expr` that belong to `field` are written without a field
+    Group { field: FieldSel, inner: Box<Node> },
 }
 
 // ---------------------------------------------------------------------------------------------
@@ -561,7 +580,13 @@ pub fn eval_leaf(l: &Leaf, d: &MDoc) -> bool {
 pub fn eval_node(n: &Node, d: &MDoc, conj: bool) -> bool {
     match n {
         Node::Leaf(l) => eval_leaf(l, d),
-        Node::OrOfAnds(groups) => groups.iter().any(|g| g.iter().all(|x| eval_node(x, d, conj))),
+        // a conjunction matches when it has a required operand, all of them match and no excluded
+        // operand matches; one made only of excluded operands is a clause of exclusions: nothing
+        Node::OrOfAnds(groups) => groups.iter().any(|g| {
+            g.iter().any(|(o, _)| !matches!(o, Occ::MustNot | Occ::NotKw))
+                && g.iter().all(|(o, x)| eval_node(x, d, conj) != matches!(o, Occ::MustNot | Occ::NotKw))
+        }),
+        Node::Group { inner, .. } => eval_node(inner, d, conj),
         Node::Occur(items) => {
             let mut n_must = 0;
             let mut n_should = 0;
@@ -712,8 +737,85 @@ impl World {
         }
     }
 
+    /// `a AND -b OR c`: operands from `item`; markers only where their meaning is defined
+    fn gen_chain(&self, rng: &mut Rng, item: &mut dyn FnMut(&mut Rng) -> Node) -> Node {
+        let mut groups: Vec<Vec<(Occ, Node)>> = vec![];
+        let ng = rng.urange(1, 3);
+        for _ in 0..ng {
+            let k = rng.urange(1, 3);
+            groups.push(
+                (0..k)
+                    .map(|_| {
+                        let occ = match rng.weighted(&[68, 24, 8]) {
+                            0 => Occ::Bare,
+                            1 => Occ::MustNot,
+                            _ => Occ::Must,
+                        };
+                        (occ, item(rng))
+                    })
+                    .collect(),
+            );
+        }
+        if groups.iter().map(|g| g.len()).sum::<usize>() < 2 {
+            groups[0].push((Occ::Bare, item(rng)));
+        }
+        for g in groups.iter_mut() {
+            // `x OR +y` lifts y into the enclosing clause: only write `+` inside a conjunction
+            if g.len() < 2 {
+                for (o, _) in g.iter_mut() {
+                    if *o == Occ::Must {
+                        *o = Occ::Bare;
+                    }
+                }
+            }
+        }
+        // a chain made only of exclusions is rejected as a whole
+        if !groups.iter().any(|g| g.iter().any(|(o, _)| *o != Occ::MustNot)) {
+            groups[0][0].0 = Occ::Bare;
+        }
+        Node::OrOfAnds(groups)
+    }
+
+    fn gen_group_expr(&self, field: FieldSel, rng: &mut Rng, depth: usize) -> Node {
+        let w: [u32; 3] = if depth >= 2 { [1, 0, 0] } else if depth == 0 { [20, 40, 40] } else { [60, 20, 20] };
+        match rng.weighted(&w) {
+            0 => {
+                let val = if field == FieldSel::JsS && rng.chance(1, 3) {
+                    Val::Text(self.json_words(rng, 2, 3))
+                } else {
+                    self.gen_val(field, rng)
+                };
+                Node::Leaf(Leaf::Term { field, val })
+            }
+            1 => {
+                let n = rng.urange(2, 3);
+                let mut items: Vec<(Occ, Node)> = (0..n)
+                    .map(|_| {
+                        let occ = match rng.weighted(&[55, 20, 25]) {
+                            0 => Occ::Bare,
+                            1 => Occ::Must,
+                            _ => Occ::MustNot,
+                        };
+                        (occ, self.gen_group_expr(field, rng, depth + 1))
+                    })
+                    .collect();
+                if items.iter().all(|(o, _)| *o == Occ::MustNot) {
+                    items[0].0 = Occ::Bare;
+                }
+                Node::Occur(items)
+            }
+            _ => self.gen_chain(rng, &mut |rng| self.gen_group_expr(field, rng, depth + 1)),
+        }
+    }
+
     pub fn gen_node(&self, rng: &mut Rng, depth: usize) -> Node {
-        let w: [u32; 3] = if depth >= 3 { [1, 0, 0] } else if depth == 0 { [25, 40, 35] } else { [60, 20, 20] };
+        let w: [u32; 4] = if depth >= 3 {
+            [1, 0, 0, 0]
+        } else if depth == 0 {
+            [22, 35, 33, 10]
+        } else {
+            [56, 18, 18, 8]
+        };
         match rng.weighted(&w) {
             0 => Node::Leaf(self.gen_leaf(rng)),
             1 => {
@@ -735,17 +837,25 @@ impl World {
                 }
                 Node::Occur(items)
             }
+            2 => {
+                if rng.chance(1, 3) {
+                    // plain terms over the focus words: every subset of them is a document
+                    self.gen_chain(rng, &mut |rng| {
+                        let field = if rng.bool() { FieldSel::Title } else { FieldSel::Default };
+                        Node::Leaf(Leaf::Term { field, val: Val::Text(vec![rng.pick(&self.focus).clone()]) })
+                    })
+                } else {
+                    self.gen_chain(rng, &mut |rng| self.gen_node(rng, depth + 1))
+                }
+            }
             _ => {
-                let mut groups: Vec<Vec<Node>> = vec![];
-                let ng = rng.urange(1, 3);
-                for _ in 0..ng {
-                    let k = rng.urange(1, 3);
-                    groups.push((0..k).map(|_| self.gen_node(rng, depth + 1)).collect());
-                }
-                if groups.iter().map(|g| g.len()).sum::<usize>() < 2 {
-                    groups[0].push(self.gen_node(rng, depth + 1));
-                }
-                Node::OrOfAnds(groups)
+                // field group on a field that is not a default field
+                const GROUP_FIELDS: &[FieldSel] = &[
+                    FieldSel::Tag, FieldSel::Tag, FieldSel::Weird, FieldSel::JsS, FieldSel::JsS, FieldSel::JsKW,
+                    FieldSel::U, FieldSel::I, FieldSel::JsN,
+                ];
+                let field = *rng.pick(GROUP_FIELDS);
+                Node::Group { field, inner: Box::new(self.gen_group_expr(field, rng, 0)) }
             }
         }
     }
@@ -810,6 +920,22 @@ pub fn features(n: &Node) -> BTreeSet<String> {
                 if depth > 0 {
                     out.insert("nested-clause".into());
                 }
+                for g in groups {
+                    for (o, _) in g {
+                        match o {
+                            Occ::MustNot | Occ::NotKw => {
+                                out.insert("chain-operand:-".into());
+                            }
+                            Occ::Must => {
+                                out.insert("chain-operand:+".into());
+                            }
+                            Occ::Bare => {}
+                        }
+                    }
+                    if g.len() == 1 && matches!(g[0].0, Occ::MustNot | Occ::NotKw) && groups.len() > 1 {
+                        out.insert("OR-alternative-only-excluded".into());
+                    }
+                }
                 let has_and = groups.iter().any(|g| g.len() > 1);
                 let has_or = groups.len() > 1;
                 out.insert(
@@ -821,10 +947,14 @@ pub fn features(n: &Node) -> BTreeSet<String> {
                     .into(),
                 );
                 for g in groups {
-                    for x in g {
+                    for (_, x) in g {
                         walk(x, out, depth + 1);
                     }
                 }
+            }
+            Node::Group { field, inner } => {
+                out.insert(format!("field-group:{}", field.label()));
+                walk(inner, out, depth + 1);
             }
         }
     }
@@ -862,6 +992,18 @@ fn simplify_leaf(l: &Leaf, out: &mut Vec<Node>) {
                 }
             }
             _ => {}
+    }
+}
+
+/// may `n` stand inside `field:( ... )` with the same meaning? (its unfielded leaves take the
+/// group's field, `*` turns into an exists query)
+fn group_safe(n: &Node, field: FieldSel) -> bool {
+    match n {
+        Node::Leaf(Leaf::Term { field: f, .. }) => *f == field,
+        Node::Leaf(_) => false,
+        Node::Occur(items) => items.iter().all(|(o, x)| *o != Occ::NotKw && group_safe(x, field)),
+        Node::OrOfAnds(groups) => groups.iter().all(|g| g.iter().all(|(_, x)| group_safe(x, field))),
+        Node::Group { .. } => false,
     }
 }
 
@@ -921,9 +1063,25 @@ pub fn simplifications(n: &Node) -> Vec<Node> {
             }
         }
         Node::OrOfAnds(groups) => {
+            let valid = |gs: &Vec<Vec<(Occ, Node)>>| {
+                gs.iter().map(|g| g.len()).sum::<usize>() >= 2
+                    && gs.iter().any(|g| g.iter().any(|(o, _)| *o != Occ::MustNot))
+                    && gs.iter().all(|g| g.len() >= 2 || g.iter().all(|(o, _)| *o != Occ::Must))
+            };
             for g in groups {
-                for x in g {
+                for (_, x) in g {
                     out.push(x.clone());
+                }
+            }
+            for gi in 0..groups.len() {
+                for k in 0..groups[gi].len() {
+                    if groups[gi][k].0 != Occ::Bare {
+                        let mut gs = groups.clone();
+                        gs[gi][k].0 = Occ::Bare;
+                        if valid(&gs) {
+                            out.push(Node::OrOfAnds(gs));
+                        }
+                    }
                 }
             }
             for gi in 0..groups.len() {
@@ -933,18 +1091,27 @@ pub fn simplifications(n: &Node) -> Vec<Node> {
                     if gs[gi].is_empty() {
                         gs.remove(gi);
                     }
-                    if gs.iter().map(|g| g.len()).sum::<usize>() >= 2 {
+                    if valid(&gs) {
                         out.push(Node::OrOfAnds(gs));
                     }
                 }
             }
             for gi in 0..groups.len() {
                 for k in 0..groups[gi].len() {
-                    for s in simplifications(&groups[gi][k]) {
+                    for s in simplifications(&groups[gi][k].1) {
                         let mut gs = groups.clone();
-                        gs[gi][k] = s;
+                        gs[gi][k].1 = s;
                         out.push(Node::OrOfAnds(gs));
                     }
+                }
+            }
+        }
+        Node::Group { field, inner } => {
+            // the same expression with the field written on every leaf
+            out.push((**inner).clone());
+            for s in simplifications(inner) {
+                if group_safe(&s, *field) {
+                    out.push(Node::Group { field: *field, inner: Box::new(s) });
                 }
             }
         }
@@ -1227,15 +1394,18 @@ fn print_bound_val(v: &Val, rng: &mut Rng, mode: PrintMode) -> String {
 }
 
 /// returns (text, may a `^boost` follow directly?)
-fn print_leaf_inner(l: &Leaf, rng: &mut Rng, mode: PrintMode) -> (String, bool) {
+fn print_leaf_inner(l: &Leaf, rng: &mut Rng, mode: PrintMode, group: Option<FieldSel>) -> (String, bool) {
     match l {
         Leaf::All => ("*".to_string(), true),
         Leaf::Term { field, val } => {
             let lit = val_literal(val, rng, mode, false);
             // facets start with '/', which the lenient grammar reads as a regex: always quote
             let force = matches!(val, Val::Fa(_));
-            let v = print_value(&lit, rng, mode, *field == FieldSel::Default, force);
-            (format!("{}{v}", print_field(*field, rng, mode)), true)
+            // inside `field:( ... )` the leaves of that field are written without it
+            let bare_field = *field == FieldSel::Default || group == Some(*field);
+            let v = print_value(&lit, rng, mode, bare_field, force);
+            let prefix = if group == Some(*field) { String::new() } else { print_field(*field, rng, mode) };
+            (format!("{prefix}{v}"), true)
         }
         Leaf::Phrase { field, words, slop, prefix } => {
             let sep_pool: &[&str] = if mode == PrintMode::Noisy { &[" ", " ", " ", "  ", ", ", "-", " . "] } else { &[" "] };
@@ -1311,7 +1481,7 @@ fn boost_suffix(rng: &mut Rng) -> String {
 }
 
 pub fn print_leaf(l: &Leaf, rng: &mut Rng, mode: PrintMode) -> String {
-    print_leaf_inner(l, rng, mode).0
+    print_leaf_inner(l, rng, mode, None).0
 }
 
 fn wrap(s: String, rng: &mut Rng, mode: PrintMode) -> String {
@@ -1320,22 +1490,35 @@ fn wrap(s: String, rng: &mut Rng, mode: PrintMode) -> String {
 
 /// `atomic`: the result must read as ONE operand (leaf or parenthesised group)
 /// `allow_boost`: a boost may be attached to the operand itself
-fn print_node(n: &Node, rng: &mut Rng, mode: PrintMode, atomic: bool, allow_boost: bool) -> String {
+fn print_node(
+    n: &Node,
+    rng: &mut Rng,
+    mode: PrintMode,
+    atomic: bool,
+    allow_boost: bool,
+    group: Option<FieldSel>,
+) -> String {
     let noisy = mode == PrintMode::Noisy;
     let (mut s, mut boostable, is_group) = match n {
         Node::Leaf(l) => {
-            let (s, b) = print_leaf_inner(l, rng, mode);
+            let (s, b) = print_leaf_inner(l, rng, mode, group);
             (s, b, false)
+        }
+        Node::Group { field, inner } => {
+            let body = print_node(inner, rng, mode, false, true, Some(*field));
+            (format!("{}{}", print_field(*field, rng, mode), wrap(body, rng, mode)), true, false)
         }
         Node::Occur(items) => {
             let mut parts = vec![];
             for (occ, x) in items {
                 let p = match occ {
-                    Occ::Bare => print_node(x, rng, mode, true, true),
-                    Occ::Must => format!("+{}", print_node(x, rng, mode, true, true)),
-                    Occ::MustNot => format!("-{}", print_node(x, rng, mode, true, true)),
+                    Occ::Bare => print_node(x, rng, mode, true, true, group),
+                    Occ::Must => format!("+{}", print_node(x, rng, mode, true, true, group)),
+                    Occ::MustNot => format!("-{}", print_node(x, rng, mode, true, true, group)),
                     // a boost directly behind `NOT x` would apply to the negation as a whole
-                    Occ::NotKw => format!("NOT {}{}", ws(rng, mode, false), print_node(x, rng, mode, true, false)),
+                    Occ::NotKw => {
+                        format!("NOT {}{}", ws(rng, mode, false), print_node(x, rng, mode, true, false, group))
+                    }
                 };
                 parts.push(p);
             }
@@ -1354,11 +1537,16 @@ fn print_node(n: &Node, rng: &mut Rng, mode: PrintMode, atomic: bool, allow_boos
                 if gi > 0 {
                     s.push_str(&format!("{}OR {}", ws(rng, mode, true), ws(rng, mode, false)));
                 }
-                for (k, x) in g.iter().enumerate() {
+                for (k, (occ, x)) in g.iter().enumerate() {
                     if k > 0 {
                         s.push_str(&format!("{}AND {}", ws(rng, mode, true), ws(rng, mode, false)));
                     }
-                    s.push_str(&print_node(x, rng, mode, true, true));
+                    s.push_str(match occ {
+                        Occ::Must => "+",
+                        Occ::MustNot | Occ::NotKw => "-",
+                        Occ::Bare => "",
+                    });
+                    s.push_str(&print_node(x, rng, mode, true, true, group));
                 }
             }
             (s, false, true)
@@ -1376,7 +1564,8 @@ fn print_node(n: &Node, rng: &mut Rng, mode: PrintMode, atomic: bool, allow_boos
             boostable = true;
             k += 1;
         }
-        if boostable && allow_boost && rng.chance(1, 6) {
+        // boosts are frequent inside a field group: the group's field has to reach below them
+        if boostable && allow_boost && rng.chance(1, if group.is_some() { 2 } else { 6 }) {
             s.push_str(&boost_suffix(rng));
             if rng.chance(1, 8) {
                 s = wrap(s, rng, mode);
@@ -1393,7 +1582,7 @@ fn print_node(n: &Node, rng: &mut Rng, mode: PrintMode, atomic: bool, allow_boos
 }
 
 pub fn print_query(n: &Node, rng: &mut Rng, mode: PrintMode) -> String {
-    let body = print_node(n, rng, mode, mode == PrintMode::Boosted && !matches!(n, Node::Leaf(_)), true);
+    let body = print_node(n, rng, mode, mode == PrintMode::Boosted && !matches!(n, Node::Leaf(_)), true, None);
     format!("{}{body}{}", ws(rng, mode, false), ws(rng, mode, false))
 }
 
